@@ -542,6 +542,33 @@ func (e *Exec) checkFrame(retOrd int) {
 	}
 }
 
+// frameGoal is the frame formula of heap key k for the heap version cur: every location that existed at entry and
+// is not listed in 'modifies' has its entry value. ok is false when the key is not constrained by the frame.
+func (e *Exec) frameGoal(k, cur string) (string, bool) {
+	if e.contract == nil || e.contract.NoFrame || e.old == nil {
+		return "", false
+	}
+	init, has := e.heapInit[k]
+	if !has || cur == init {
+		return "", false
+	}
+	env := e.topEnv(e.old)
+	env.inOld = true
+	env.cur = e.old
+	sets := e.modifiesSets(e.contract.Modifies, env)
+	ls := sets[k]
+	if ls != nil && ls.whole {
+		return "", false
+	}
+	conds := []string{sx("<=", sx("root", "r!f"), "alloc0"), sx("<", "0", sx("root", "r!f"))}
+	if ls != nil {
+		for _, r := range ls.refs {
+			conds = append(conds, mkNot(mkEq("r!f", r)))
+		}
+	}
+	return fmt.Sprintf("(forall ((r!f Int)) (! (=> %s (= (select %s r!f) (select %s r!f))) :pattern ((select %s r!f))))", mkAnd(conds...), cur, init, cur), true
+}
+
 // ---- caller-side clauses ------------------------------------------------------
 
 func (e *Exec) checkCallsite(c *ast.CallExpr, fv Val, args []Val) {
@@ -613,6 +640,7 @@ func (e *Exec) checkCallsite(c *ast.CallExpr, fv Val, args []Val) {
 		}
 		t := e.specBool(cs.Req, envp)
 		e.oblige(fmt.Sprintf("callsite %s#%d.%d", site.Name, site.K, i), "callsite", cs.Req.Text, t)
+		e.assume(t)
 	}
 	for i, as := range e.contract.Asserts {
 		if as.Before != site.Name || (as.Ord >= 0 && as.Ord != site.K) {
@@ -622,6 +650,7 @@ func (e *Exec) checkCallsite(c *ast.CallExpr, fv Val, args []Val) {
 		aenv.scopePos = c.Pos()
 		t := e.specBool(as.C, aenv)
 		e.oblige(fmt.Sprintf("assert#%d before %s#%d", i, site.Name, site.K), "assert", as.C.Text, t)
+		e.assume(t) // proved above: available as a cut for what follows
 	}
 }
 
@@ -847,7 +876,9 @@ func (e *Exec) applyContract(fn *types.Func, ct *Contract, f FuncV, args []Val, 
 	e.bindResults(env2.names, sig, res)
 	for _, en := range ct.Ensures {
 		if mentionsEvents(en.Expr) {
-			continue // path events of the callee's own body mean nothing to a caller
+			// path events of the callee's own body mean nothing to a caller
+			e.warn("ensures of %s mentioning path events is not visible to this caller: %s", ct.Key, truncate(en.Text, 80))
+			continue
 		}
 		e.assume(e.specBool(en, env2))
 	}
@@ -995,3 +1026,4 @@ func shortFile(f string) string {
 }
 
 var _ = token.NoPos
+
